@@ -46,7 +46,7 @@ def Inj(ch, pdu):
 def cfg(**kw):
     c = {"mode": "ack", "closure": False, "nakproc": "def", "delay": 0, "limit": 3, "to": [4, 2, 3],
          "handlers": {}, "crc": False, "cksum": "modular", "seg": 2, "unit": 8, "file": [1, 2, 0, 1],
-         "isfile": True, "fsreqs": [], "pre": []}
+         "isfile": True, "fsreqs": [], "pre": {}}
     c.update(kw)
     return c
 
@@ -105,4 +105,8 @@ def scenarios():
     add("c17-prompt-restarts-ack-timer", cfg(to=[40, 2, 30], limit=3),
         [S, Dr(), S, Drop("c2r"), S, Dr(), S, Dr(), R, Ds(), SC("PromptKeepAlive"), S, Dr(), R, Ds(),
          T(2), ST, S, Drop("c2r"), T(2), ST, S, Drop("c2r"), T(2), ST], [])
+    # C17: the EOF timer expires while the first EOF is still in flight; its ACK then arrives, but the
+    # retransmission flag stays set: the acknowledged EOF is sent again and the limit is hit
+    add("c17-eof-retransmitted-after-ack", cfg(limit=2, file=[1, 2, 0]),
+        [S, S, S, S, Dr(), Dr(), Dr(), T(2), ST, Dr(), R, Ds(), S, R, T(2), ST], [])
     return out
